@@ -262,15 +262,6 @@ def namespace_as_value(c) -> bool:
     return False
 
 
-def macro_var_dotted_binding(c) -> bool:
-    """D64 (interpreter): a macro variable x while a dotted binding / declaration x.y… exists: load_values
-    writes x's value into the Referent that already has a container, and the container wins."""
-    if c.get("runner") != "I":
-        return False
-    heads = {split(p)[0] for p, _ in c["binds"] if "." in p} | {split(p)[0] for p, _ in c.get("decls", []) if "." in p}
-    return any(e[0] == "map" and e[1] in heads for e in e_walk(c["e"]))
-
-
 # ----------------------------------------------------------------------------------------------
 # generator: exhaustive small scope
 # ----------------------------------------------------------------------------------------------
@@ -330,29 +321,31 @@ def config_cases(cfg, order_rng: Optional[random.Random] = None):
 VARS = ["x", "y", "a", "b"]
 
 
-def macro_expr(rng: random.Random, depth: int, scope: List[str]):
+def macro_expr(rng: random.Random, depth: int, scope: List[Tuple[str, str]]):
+    """scope: (variable, kind of its values: 'int' | 'map' | 'list'), innermost first"""
     r = rng.random()
     if depth <= 0 or r < 0.25:
         # a reference: to a macro variable (with optional field), or to a binding
         if scope and rng.random() < 0.6:
-            v = rng.choice(scope)
-            return ["ref", v if rng.random() < 0.7 else v + "." + rng.choice(["k", "b"])]
+            v, kind = rng.choice(scope)
+            return ["ref", v if (kind != "map" or rng.random() < 0.4) else v + "." + rng.choice(["k", "b", "zz"])]
         return ["ref", rng.choice(["a", "a.b", "x", "y", "y.k", "b", "a.b.c"])]
     if r < 0.45:
         return ["list", [macro_expr(rng, depth - 1, scope) for _ in range(rng.randint(1, 3))]]
     x = rng.choice(VARS)
     rr = rng.random()
-    if rr < 0.4:
-        rng_e = ["lit", [rng.randint(1, 9) for _ in range(rng.randint(0, 3))]]
-    elif rr < 0.6:
-        rng_e = ["lit", [{"k": rng.randint(1, 9), "b": rng.randint(1, 9)} for _ in range(rng.randint(1, 2))]]
-    elif rr < 0.8:
-        rng_e = ["lit", [[rng.randint(1, 9) for _ in range(rng.randint(0, 2))] for _ in range(rng.randint(1, 2))]]
+    lists = [v for v, kind in scope if kind == "list"]
+    if lists and rr < 0.3:
+        rng_e, kind = ["ref", rng.choice(lists)], "int"      # iterate over an outer macro variable (a list element)
+    elif rr < 0.5:
+        rng_e, kind = ["lit", [rng.randint(1, 9) for _ in range(rng.randint(0, 3))]], "int"
+    elif rr < 0.7:
+        rng_e, kind = ["lit", [{"k": rng.randint(1, 9), "b": rng.randint(1, 9)} for _ in range(rng.randint(1, 2))]], "map"
+    elif rr < 0.9:
+        rng_e, kind = ["lit", [[rng.randint(1, 9) for _ in range(rng.randint(0, 2))] for _ in range(rng.randint(1, 2))]], "list"
     else:
-        rng_e = ["list", [macro_expr(rng, depth - 1, scope) for _ in range(rng.randint(1, 2))]]
-        if scope and rng.random() < 0.5:
-            rng_e = ["ref", rng.choice(scope)]             # iterate over an outer macro variable (a list element)
-    return ["map", x, rng_e, macro_expr(rng, depth - 1, [x] + scope)]
+        rng_e, kind = ["list", [macro_expr(rng, depth - 1, scope) for _ in range(rng.randint(1, 2))]], "int"
+    return ["map", x, rng_e, macro_expr(rng, depth - 1, [(x, kind)] + scope)]
 
 
 MACRO_BINDS = [
@@ -451,8 +444,7 @@ class C12(Prop):
         return bool(c.get("pkg")) or any("." in p or isinstance(v, dict) for p, v in c["binds"])
 
     def known_preds(self):
-        return {"value_under_container": value_under_container, "namespace_as_value": namespace_as_value,
-                "macro_var_dotted_binding": macro_var_dotted_binding}
+        return {"value_under_container": value_under_container, "namespace_as_value": namespace_as_value}
 
     def extra_checks(self, tier, rng):
         """the Lean `denote` (the specification the theorems are about) agrees with the Python oracle's `denote`"""
